@@ -30,11 +30,15 @@ pub(crate) mod verif_c06_entry {
   #[kani::proof] #[kani::unwind(22)] #[kani::stub(alloc::fmt::format, stub_format)]
   fn c06_entry_short_datagram() {
     let mut mr = receiver();
+    // one symbolic 19-byte buffer in static storage; the datagrams are its prefixes (a `Bytes` over
+    // static storage is the cheapest representation: 20 heap-backed `Bytes::copy_from_slice` values made
+    // CBMC run out of 8 GB in the propositional encoding)
+    let buf: &'static [u8; 19] = Box::leak(Box::new(kani::any::<[u8; 19]>()));
+    kani::cover!(buf[0] == b'R' && buf[9] == b'D', "ping-shaped datagram");
+    let all = Bytes::from_static(&buf[..]);
     let mut len: usize = 0;
     while len <= 19 {
-      let buf: [u8; 19] = kani::any();
-      kani::cover!(len == 19 && buf[0] == b'R' && buf[9] == b'D', "ping-shaped datagram");
-      mr.handle_received_packet(&Bytes::copy_from_slice(&buf[..len]));
+      mr.handle_received_packet(&all.slice(0..len));
       len += 1;
     }
     kani::cover!(len == 20, "all lengths 0..=19 done");
